@@ -7,7 +7,7 @@
    packets the machine hands to the socket between two reads of a command are a response of the grammar for that command
    with consecutive sequence numbers, and the machine is back at its prompt only when that response is complete. *)
 From Coq Require Import List Arith NArith Lia Bool.
-From MM Require Import Lib.Bytes Model.Conn Model.Resp Proofs.RespProofs Proofs.C10Proofs Gen.FactsConn Gen.FactsPackets Model.Packets Proofs.PacketProofs Proofs.C03Proofs.
+From MM Require Import Lib.Bytes Model.Conn Model.Resp Proofs.RespProofs Proofs.C10Proofs Gen.FactsConn Gen.FactsPackets Model.Packets Proofs.PacketProofs Proofs.C03Proofs Proofs.FuelProofs.
 Import ListNotations.
 Open Scope N_scope.
 
@@ -167,3 +167,9 @@ Proof.
   split; [|vm_compute; reflexivity].
   unfold c03_conv. repeat (apply Forall_cons; [split; [cbn; auto|repeat (apply Forall_cons; [cbn; auto; discriminate|]); apply Forall_nil]|]). apply Forall_nil.
 Qed.
+
+(* the model's fuel: running a plan with the amount FUEL computes, or with ANY larger amount, gives the same state and the
+   same outputs - `go` is the fuel-independent semantics of the machine, `Stuck` is never the result of running out of fuel
+   (Proofs/FuelProofs.v: a potential over plan length, queued commands weighted by their cursors, and the frame) *)
+Theorem c03_fuel_suffices : forall B BATCH s k f n, (FUEL s k <= n)%nat -> run B BATCH n s k f = go B BATCH s k f.
+Proof. exact go_stable. Qed.
